@@ -21,7 +21,104 @@ META = {
 }
 
 
+def grid_case(rep, r: dict) -> None:
+    """vector shape with two dimensions (beta of shape (A,1) against emittance of shape (B,)): entry [a,b] reports
+    beta[a], alpha, emittance[b]"""
+    import numpy as np
+    import torch
+    import cheetah
+    bt = r["beam"]
+    t = lambda v: torch.tensor(v, dtype=torch.float64)  # noqa: E731
+    beta, emit, alpha = np.array(r["beta"]), np.array(r["emit"]), float(r["alpha"])
+    kw = dict(beta_x=t(beta).reshape(-1, 1), emittance_x=t(emit), alpha_x=t(alpha), beta_y=t(r["beta_y"]), emittance_y=t(r["emit_y"]),
+              energy=t(r["energy"]), dtype=torch.float64)
+    N = 20_000
+    try:
+        if bt == "ParameterBeam":
+            b = cheetah.ParameterBeam.from_twiss(**kw)
+            tol_b, tol_a = 1e-9, 1e-9 * (1 + alpha * alpha)
+        else:
+            with torch.random.fork_rng():
+                torch.manual_seed(int(r["torch_seed"]))
+                b = cheetah.ParticleBeam.from_twiss(num_particles=N, **kw)
+            tol_b, tol_a = 8.0 / np.sqrt(N), 8.0 * np.sqrt(1 + alpha * alpha) / np.sqrt(N)
+        gb, ga, ge = (np.array(getattr(b, nm).detach().numpy(), dtype=float) for nm in ("beta_x", "alpha_x", "emittance_x"))
+    except Exception as e:  # noqa: BLE001
+        rep.fail("falsifier", f"C17|from_twiss|{bt}|2-d vector shape|raises", f"{bt}.from_twiss with beta_x of shape {(len(beta), 1)} and emittance_x "
+                 f"of shape {(len(emit),)}: {type(e).__name__}: {e}", r)
+        return
+    want = (len(beta), len(emit))
+    for nm, g in (("beta_x", gb), ("alpha_x", ga), ("emittance_x", ge)):
+        if g.shape != want:
+            rep.fail("falsifier", f"C17|from_twiss|{bt}|2-d vector shape|shape", f"{bt}.from_twiss: {nm} has shape {g.shape}, the parameters broadcast to {want}", r)
+            return
+    for a in range(want[0]):
+        for c in range(want[1]):
+            if not abs(gb[a, c] / beta[a] - 1) <= tol_b or not abs(ge[a, c] / emit[c] - 1) <= tol_b or not abs(ga[a, c] - alpha) <= tol_a:
+                rep.fail("falsifier", f"C17|from_twiss|{bt}|2-d vector shape|value", f"{bt}.from_twiss(beta_x={beta.tolist()} as a column, emittance_x="
+                         f"{emit.tolist()}, alpha_x={alpha}): entry [{a},{c}] reports beta {gb[a, c]!r}, alpha {ga[a, c]!r}, emittance {ge[a, c]!r}", r)
+                return
+
+
+def mutate_case(rep, r: dict) -> None:
+    """the reported Twiss parameters are those of the beam as it is *now*: after coordinates were changed through the
+    public setters they equal the ones of a beam freshly built from the same particles, and beta*gamma - alpha^2 = 1"""
+    import numpy as np
+    import torch
+    import cheetah
+    t = lambda v: torch.tensor(v, dtype=torch.float64)  # noqa: E731
+    P = np.array(r["particles"], dtype=float)
+    b = cheetah.ParticleBeam(t(P), t(r["energy"]), dtype=torch.float64)
+    names = ("beta_x", "alpha_x", "emittance_x", "beta_y", "alpha_y", "emittance_y", "normalized_emittance_x", "normalized_emittance_y")
+    first = {n: float(getattr(b, n)) for n in r["read_first"]}   # noqa: F841  (the read is the point)
+    fx, fpy = float(r["fx"]), float(r["fpy"])
+    b.x = b.x * fx
+    b.py = b.py * fpy + 1e-5
+    P2 = P.copy()
+    P2[:, 0] *= fx
+    P2[:, 3] = P2[:, 3] * fpy + 1e-5
+    fresh = cheetah.ParticleBeam(t(P2), t(r["energy"]), dtype=torch.float64)
+    for n in names:
+        g, w = float(getattr(b, n)), float(getattr(fresh, n))
+        if not abs(g - w) <= 1e-9 * max(abs(w), 1e-300):
+            rep.fail("falsifier", "C17|ParticleBeam|after setting coordinates|" + n.rsplit("_", 1)[0],
+                     f"after reading {r['read_first']} and then x *= {fx}, py = py*{fpy} + 1e-5: {n} = {g!r}, a beam built from the same particles "
+                     f"reports {w!r}", r)
+            return
+
+
+def extra_probes(ctx, n: int) -> None:
+    import numpy as np
+    import elements as E
+    import lattices as LT
+    rep, rng = ctx.report, ctx.rng
+    for i in range(n):
+        A, B = int(rng.integers(2, 4)), int(rng.integers(2, 4))
+        if rng.random() < 0.3:
+            B = A
+        beta = (10.0 ** rng.uniform(-1, 2)) * 3.0 ** np.arange(A)
+        emit = (10.0 ** rng.uniform(-12, -7)) * 3.0 ** np.arange(B)
+        rng.shuffle(beta)
+        rng.shuffle(emit)
+        r = {"kind": "twiss_grid", "beam": ["ParameterBeam", "ParticleBeam"][i % 2], "beta": beta.tolist(), "emit": emit.tolist(),
+             "alpha": float(E.pick(rng, 0.0, 1.0, -0.7, 2.5)), "beta_y": 2.0, "emit_y": 1e-9, "energy": float(E.energy(rng)),
+             "torch_seed": int(rng.integers(2 ** 31))}
+        rep.fals_cases += 1
+        rep.count("probe:twiss-grid:" + r["beam"])
+        rep.case(("twiss_grid", r["beam"], A, B), None)
+        grid_case(rep, r)
+    for i in range(n):
+        names = ["beta_x", "alpha_x", "emittance_x", "beta_y", "alpha_y", "emittance_y", "normalized_emittance_x", "sigma_x"]
+        r = {"kind": "twiss_mutate", "particles": LT.gen_particles(rng, 12).tolist(), "energy": float(E.energy(rng)),
+             "read_first": [names[int(j)] for j in rng.choice(len(names), size=int(rng.integers(1, 4)), replace=False)],
+             "fx": float(E.pick(rng, 3.0, 0.5, -2.0)), "fpy": float(E.pick(rng, 2.0, 0.25, 1.0))}
+        rep.fals_cases += 1
+        rep.count("probe:twiss-after-setters")
+        mutate_case(rep, r)
+
+
 def run(ctx) -> None:
+    extra_probes(ctx, ctx.n(8, 120))
     run_twiss_correspondence(ctx, "C17", ctx.n(60, 1500))
     run_stats_correspondence(ctx, "C17", ctx.n(60, 1500))
     if F is not None:
@@ -29,6 +126,10 @@ def run(ctx) -> None:
 
 
 def corpus_case(ctx, r: dict) -> None:
+    if r.get("kind") == "twiss_grid":
+        return grid_case(ctx.report, r)
+    if r.get("kind") == "twiss_mutate":
+        return mutate_case(ctx.report, r)
     if F is not None and hasattr(F, "corpus_case"):
         F.corpus_case(ctx, r)
 
